@@ -166,6 +166,20 @@ def stk_udata(frames):
     return A('PERF_STK_UData', NONE, frames[:4])
 
 
+# header counts: the count is a full 64-bit argument word ("header count above/below the data supplied")
+HEADER_COUNT_BOUNDARIES = ((1 << 31) - 1, 1 << 31, (1 << 32) - 1, 1 << 32, (1 << 32) + 1, (1 << 32) + 2, (1 << 63) + 1,
+                           (1 << 64) - 1)
+
+
+def reposition(rng, nested, codes=('PERF_STK_UHdr', 'PERF_THD_Data')):
+    """Move the records of the given codes to random positions; the other records keep their relative order."""
+    movable = [a for a in nested if a[0] in codes]
+    rest = [a for a in nested if a[0] not in codes]
+    for a in movable:
+        rest.insert(rng.randrange(len(rest) + 1), a)
+    return rest
+
+
 def unrelated(rng, k=1):
     """Same-thread records unrelated to any template: known-but-undecoded and unknown codes, plus simple decodable
     NONE-qualified records."""
